@@ -109,7 +109,7 @@ def parse_text(out, verbose=False):
             continue
         tag, rest = m.group(1), m.group(2)
         if tag in CATS:
-            am = ALGLINE.match(rest.rstrip())
+            am = ALGLINE.match(rest.strip())   # (a name the peer wrapped in white space is shown with it; the parsed name is the bare one)
             if not am:
                 rep.other.append(line)
                 cur = None
